@@ -345,9 +345,20 @@ def unhex(s):
     return b"" if s == "-" else bytes.fromhex(s)
 
 
-def impl_only(sc, lines):
-    """run lines on the implementation alone (value transport by FillRandom, oracle-only observables)"""
-    return run_lines(sc.impl, lines, prefix=[sc.desc_line()])
+def impl_only(sc, lines, cmd=None):
+    """run lines on the implementation alone (value transport by FillRandom, oracle-only observables).
+    A fatal crash of the process (e.g. a FillRandom that exhausts memory) loses the rest of its chunk: those lines are
+    retried one process each with a short timeout, so that only the crashing line itself stays `CRASH`."""
+    cmd = cmd or sc.impl
+    pre = [sc.desc_line()]
+    out = run_lines(cmd, lines, prefix=pre)
+    bad = [i for i, a in enumerate(out) if a == "CRASH"]
+    for i in bad[:400]:
+        try:
+            out[i] = run_lines(cmd, [lines[i]], prefix=pre, jobs=1, timeout=10)[0]
+        except Exception:
+            out[i] = "CRASH"
+    return out
 
 
 def corpus(c):
